@@ -85,6 +85,7 @@ struct Knobs {
     int rm_change_pct = 0;       // the broker announces a different Receive Maximum (or none) on later connections
     int suback_fail_pct = 15, suback_all_fail_pct = 5;
     int sub_burst_pct = 0;
+    int inline_followup_pct = 0;     // per publish: a follow-up publish issued from inside its completion handler
     int server_disconnect_pct = 0;   // the broker ends connections with DISCONNECT (sometimes right behind a last message, in the same read)
     int signal_pct = 0;          // per request: bound to a cancellation slot and signalled (total / partial, rarely terminal) some time after initiation
     int drop_ack_pct = 0;        // scenarios in which the broker withholds acknowledgements on a live connection for the first 30 s (only the 20 s sentry helps)
@@ -195,6 +196,14 @@ Scenario gen_mix(vu::Rng& rng, const Knobs& k, const std::string& family) {
         if (b.payload.size() > 60000) b.payload.resize(60000);
         if (rng.chance(1, 3)) { ref::Gen g(rng); g.max_str = 30; b.props = g.props(ref::PUBLISH, -1, {0x23}); }
         sc.script.push_back(b);
+    }
+    if (k.inline_followup_pct) {
+        size_t n0 = sc.script.size();
+        for (size_t i = 0; i < n0; ++i) {
+            if (sc.script[i].kind != Action::publish || sc.script[i].expect_immediate || (int)rng.below(100) >= k.inline_followup_pct) continue;
+            Action f; f.kind = Action::publish; f.qos = (int)rng.below(3); f.topic = "fu"; f.payload = "next"; f.after_script = (int)i; f.at = sc.script[i].at;
+            sc.script.push_back(f);
+        }
     }
     if ((int)rng.below(100) < k.server_disconnect_pct) {
         int nd = (int)rng.range(1, 2);
@@ -310,14 +319,14 @@ Scenario reference_workload(int which, uint64_t seed) {
 
 Knobs knobs_for(const std::string& family) {
     Knobs k;
-    if (family == "c01-mix") { k.inbound = 3; k.qos_w[0] = 0; k.qos_w[1] = 1; k.qos_w[2] = 1; k.authenticator_pct = 10; k.signal_pct = 5; }
-    else if (family == "c02-mix") { k.faults_max = 3; k.bad_attempts_max = 3; k.authenticator_pct = 10; k.drop_ack_pct = 15; k.signal_pct = 8; k.server_disconnect_pct = 10; }
-    else if (family == "c03-mix") { k.qos_w[0] = 1; k.qos_w[1] = 1; k.qos_w[2] = 4; k.faults_max = 3; k.rm_choices = {0, 1, 2, 3}; k.signal_pct = 8; }
+    if (family == "c01-mix") { k.inbound = 3; k.qos_w[0] = 0; k.qos_w[1] = 1; k.qos_w[2] = 1; k.authenticator_pct = 10; k.signal_pct = 5; k.inline_followup_pct = 15; }
+    else if (family == "c02-mix") { k.faults_max = 3; k.bad_attempts_max = 3; k.authenticator_pct = 10; k.drop_ack_pct = 15; k.signal_pct = 8; k.server_disconnect_pct = 10; k.inline_followup_pct = 10; }
+    else if (family == "c03-mix") { k.qos_w[0] = 1; k.qos_w[1] = 1; k.qos_w[2] = 4; k.faults_max = 3; k.rm_choices = {0, 1, 2, 3}; k.signal_pct = 8; k.inline_followup_pct = 25; }
     else if (family == "c04-mix") { k.pubs_max = 4; k.inbound = 8; k.faults_max = 3; k.lose_session_pct = 25; k.subs = 1; k.own_limit_pct = 20; k.server_disconnect_pct = 10; }
-    else if (family == "c05-mix") { k.suffix = 15 * SEC; k.signal_pct = 25; k.server_disconnect_pct = 25; }
+    else if (family == "c05-mix") { k.suffix = 15 * SEC; k.signal_pct = 25; k.server_disconnect_pct = 25; k.inline_followup_pct = 20; }
     else if (family == "c06-rm-change") { k.pubs_min = 3; k.pubs_max = 30; k.burst_pct = 80; k.faults_max = 3; k.qos_w[0] = 3; k.big_payload_pct = 0; k.inbound = 0; k.subs = 0; k.rm_change_pct = 100; k.ack_delay_max = 100 * MS; }
-    else if (family == "c06-mix") { k.pubs_min = 2; k.pubs_max = 60; k.burst_pct = 70; k.faults_max = 3; k.qos_w[0] = 2; k.big_payload_pct = 2; k.inbound = 0; k.subs = 0; k.signal_pct = 8; }
-    else if (family == "c07-mix") { k.pubs_min = 4; k.pubs_max = 30; k.burst_pct = 80; k.rm_choices = {1, 1, 2, 3, 4, 8, 65535}; k.signal_pct = 12; k.qos_w[0] = 1; k.faults_max = 2; k.ack_delay_max = 200 * MS; k.inbound = 1; k.subs = 0; k.invalid_pub_pct = 8; k.rm_change_pct = 30; }
+    else if (family == "c06-mix") { k.pubs_min = 2; k.pubs_max = 60; k.burst_pct = 70; k.faults_max = 3; k.qos_w[0] = 2; k.big_payload_pct = 2; k.inbound = 0; k.subs = 0; k.signal_pct = 8; k.inline_followup_pct = 10; }
+    else if (family == "c07-mix") { k.pubs_min = 4; k.pubs_max = 30; k.burst_pct = 80; k.rm_choices = {1, 1, 2, 3, 4, 8, 65535}; k.signal_pct = 12; k.qos_w[0] = 1; k.faults_max = 2; k.ack_delay_max = 200 * MS; k.inbound = 1; k.subs = 0; k.invalid_pub_pct = 8; k.rm_change_pct = 30; k.inline_followup_pct = 10; }
     else if (family == "c08-mix") { k.pubs_min = 5; k.pubs_max = 40; k.subs = 2; k.unsubs = 2; k.faults_max = 2; k.inbound = 3; k.signal_pct = 12; }
     else if (family == "c11-mix") { k.keep_alive = 2; k.faults_max = 3; k.bad_attempts_max = 3; k.pubs_max = 8; k.ack_delay_max = 500 * MS; k.suffix = 60 * SEC; k.server_disconnect_pct = 15; }
     else if (family == "c13-mix") { k.pubs_max = 4; k.subs = 2; k.faults_max = 3; k.lose_session_pct = 60; k.inbound = 2; k.authenticator_pct = 25; k.suback_all_fail_pct = 25; k.server_disconnect_pct = 10; }
